@@ -184,6 +184,14 @@ def restore_rule(repo: Repo, rep, P: str):
     if not params:
         rep.inconclusive(f"{P}.R2", construct, "", "no parameter", f"{sf.rel}:{fn.lineno}")
         return
+    # the flag may also be written by a helper that could not be read through (called inside an expression, passed to
+    # functools.partial, …): its effect on the flag is then unknown to the dataflow below
+    writers = {st.name for st in sf.tree.body if isinstance(st, ast.FunctionDef) and st.name != OVERRIDE
+               and any(isinstance(x, ast.Global) and FLAG in x.names for x in ast.walk(st))}
+    used = sorted({n.id for n in ast.walk(fn) if isinstance(n, ast.Name) and n.id in writers})
+    if used:
+        rep.inconclusive(f"{P}.R2", construct, ", ".join(used), "the strictness flag is written by a helper whose call is not read through", f"{sf.rel}:{fn.lineno}")
+        return
     g = CFG(fn)
     init: FrozenSet[Env] = frozenset([tuple(sorted({FLAG: "g0", params[0]: "new"}.items()))])
 
